@@ -73,7 +73,7 @@ def run_case(c):
     viol = []
     obs = {"base_scenarios": 1}
     base = record.run_solver(scn, listener=False)
-    guard_ended = bool(base.fp_exhausted or (record.FP_GUARD in base.stdout and record.partition_degenerate(base.solver)))
+    guard_ended = bool(base.fp_exhausted or record.guard_fired(base.stdout, base.solver))
     if guard_ended and not c.get("deep"):
         return {"violations": [], "obs": {"fp_domain_exhausted": 1}, "skip": "fp-domain-exhausted"}
     T = len([e for e in base.log if e["ph"] == "g" and e["exc"] is None and e["v"] is not None])
@@ -191,7 +191,7 @@ def run_case(c):
                 continue
             obs["fault_sequences"] = obs.get("fault_sequences", 0) + 1
             obs["faults_in_sequences"] = obs.get("faults_in_sequences", 0) + len([e for e in t.log if e["exc"] is not None])
-            if t.fp_exhausted or (record.FP_GUARD in t.stdout and record.partition_degenerate(t.solver)):
+            if t.fp_exhausted or record.guard_fired(t.stdout, t.solver):
                 continue
             for n, (ndone, reported, snap, done_now) in enumerate(marks):
                 if reported != ndone:
